@@ -220,6 +220,30 @@ def directed(name, quick):
                     P.add(c, PB.M(rows[1]))
                     P._step(a='Obs', c=c, what=compact, order=list(order))
                     out.append(P.steps)
+    if name == 'flatnest':
+        # repetition inside repetition (both counts >= 2), unrolled once, then flattened twice; measurements inside so that the
+        # exported program has something to count
+        import itertools
+        for ro, ri, pos, wrap in itertools.product((2, 3), (2, 3), ('first', 'last'), (False, True)):
+            P = PB.Prog()
+            inner = P.new(rep=ri)
+            P.add(inner, PB.X(1))
+            P.add(inner, PB.M(1))
+            outer = P.new(rep=ro)
+            if pos == 'last':
+                P.add(outer, PB.X(0))
+            P.add_sub(outer, inner)
+            if pos == 'first':
+                P.add(outer, PB.X(0))
+            tgt = outer
+            if wrap:
+                tgt = P.new()
+                P.add(tgt, PB.M(0))
+                P.add_sub(tgt, outer)
+            P.act('Apply', tgt)
+            P.act('Flatten', tgt)
+            P.act('Flatten', tgt)
+            out.append(P.steps)
     if name == 'durhist':
         # the duration is read, then a registry duration (of a top-level or nested operation) changes without anything being
         # added, and the duration is read again; also read / unroll / read
@@ -401,7 +425,7 @@ SOURCES = {
     'C05': ('kinds', 'copyapplied', 'twinops', 'twinblocks', 'nest', 'mask', 'sim'),
     'C06': ('unroll', 'unroll2', 'unroll3', 'applyalias', 'twinblocks', 'nest', 'sim', 'library'),
     'C07': ('acq', 'acqdir', 'sim'),
-    'C11': ('flatten', 'flatdir', 'sim', 'library'),
+    'C11': ('flatten', 'flatdir', 'flatnest', 'sim', 'library'),
     'C03': ('hist', 'plothist', 'acq', 'acqdir', 'twinops', 'twinblocks', 'durhist', 'nest3', 'obsnest', 'sim'),
     'C08': ('kinds', 'export', 'sim', 'library'),
     'C18': ('drawkinds', 'drawdir', 'drawhist', 'drawnest'),
@@ -519,7 +543,7 @@ M_Init == /\\ heap = DoNewCircuit(DoAddOp(DoNewCircuit(<<>>, "n1", NoLink, <<"fi
       reps=[('fixed', 2), ('fixed', 3)], acts=('NewCircuit', 'AddOp', 'AddSub', 'Apply'), linktypes=(), max_circs=2, max_objs=8,
       max_steps=6 if quick else 7, workers=8, min_emit=6, timeout=120, cap=1500 if quick else 20000,
       keep=lambda p: p[-1]['a'] == 'Apply' and any(s['a'] == 'AddSub' for s in p))
-    for dn in ('flatdir', 'copyapplied', 'qldir', 'acqdir', 'unroll3', 'twinops', 'twinblocks', 'qlreal', 'durhist', 'subrel', 'nest3', 'applyalias', 'drawdir'):
+    for dn in ('flatdir', 'copyapplied', 'qldir', 'acqdir', 'unroll3', 'twinops', 'twinblocks', 'qlreal', 'durhist', 'subrel', 'nest3', 'applyalias', 'drawdir', 'flatnest'):
         if dn in want:
             out.append({'name': dn, 'programs': directed(dn, quick), 'generated': 0, 'tlc_states': 0, 'tlc_generated': 0, 'mode': 'directed family (python)'})
             out[-1]['generated'] = len(out[-1]['programs'])
